@@ -209,7 +209,7 @@ def correspondence(ctx):
 
 
 # ---------------------------------------------------------------------------------------------
-# Amended (dynamic) inputs with deferral: Engine.v Section Amend (gate = true, the code)
+# Amended (dynamic) inputs with deferral, failing steps: Engine.v Section Amend (gate = true, the code)
 # ---------------------------------------------------------------------------------------------
 
 
@@ -218,12 +218,15 @@ def gen_amend_case(rng: random.Random):
     a list of files that depends on the VERSION of its script (the script is its first declared
     input): sources or outputs of earlier steps.  History: change / delete / restore a source
     (a deleted source blocks its consumers, whose outputs then are unavailable amended inputs:
-    deferral), switch a script to another version."""
+    deferral), switch a script to another version.  Some script versions FAIL (exit 1 after the
+    amend and the reads): the step ends FAILED, its consumers stay blocked, the other steps go on
+    (all builds run with keep_going); a later version repairs it."""
     nsrc = rng.randint(2, 4)
     sources = [f"s{i}.txt" for i in range(nsrc)]
     pid = {p: i + 1 for i, p in enumerate(sources)}
     steps, avail = [], list(sources)
     scripts = {}                      # path -> {version: amended list}
+    failing = {}                      # path -> set of versions whose command fails
     for i in range(rng.randint(2, 6)):
         inp = sorted(rng.sample(avail, rng.randint(1, min(2, len(avail)))))
         out = f"o{i}.txt"
@@ -239,6 +242,7 @@ def gen_amend_case(rng: random.Random):
                 pool = built if built and rng.random() < 0.6 else rest
                 versions[v] = sorted(rng.sample(pool, min(k, len(pool))))
             scripts[path] = versions
+            failing[path] = {v for v in versions if v > 0 and rng.random() < 0.3}
             steps.append({"label": f"./{path}", "script": path, "id": 1000 + i, "inp": [path] + inp,
                           "decl": inp, "out": [out]})
         else:
@@ -250,6 +254,8 @@ def gen_amend_case(rng: random.Random):
         acts = [{"op": "print", "text": f"version {v}"}, {"op": "read", "paths": [path], "required": True}]
         if am:
             acts += [{"op": "amend", "inp": list(am)}, {"op": "read", "paths": list(am), "required": True}]
+        if v in failing[path]:
+            return acts + [{"op": "exit", "rc": 1}]
         return acts + [{"op": "auto"}]
     plan = [{"op": "static", "paths": sources + sorted(scripts)}]
     for s in steps:
@@ -302,7 +308,21 @@ def gen_amend_case(rng: random.Random):
         worlds.append(world())
     tab = [(s["id"], cid(("script", s["script"], v)), [pid[a] for a in am])
            for s in steps if s["script"] for v, am in scripts[s["script"]].items()]
-    return project, history, steps, pid, worlds, tab
+    ftab = [(s["id"], cid(("script", s["script"], v)))
+            for s in steps if s["script"] for v in sorted(failing[s["script"]])]
+    return project, history, steps, pid, worlds, tab, ftab
+
+
+def _run_amend_history(project, history, flavour):
+    """Restart flavour, or one watching director (falls back to restart when no inotify instance
+    is available); every build with keep_going (without it the scheduler drains after the first
+    failure and which independent steps still ran depends on the dispatch order)."""
+    if flavour == "watch":
+        try:
+            return e3.run_history(project, history, mode="watch", timeout=40, keep_going=True), "watch"
+        except (e3.E3Error, OSError):
+            pass
+    return e3.run_history(project, history, timeout=40, keep_going=True), "restart"
 
 
 def correspondence_amend(ctx):
@@ -310,39 +330,53 @@ def correspondence_amend(ctx):
     checks, meta = [], []
     for i in range(n):
         rng = random.Random(f"c01-amend-{ctx.seed}-{ctx.tier}-{i}")
-        project, history, steps, pid, worlds, tab = gen_amend_case(rng)
-        results = e3.run_history(project, history, timeout=40)
+        project, history, steps, pid, worlds, tab, ftab = gen_amend_case(rng)
+        results, flavour = _run_amend_history(project, history, "watch" if i % 4 == 3 else "restart")
+        ctx.count("amend_flavour:" + flavour)
         labels = {s["label"]: s["id"] for s in steps}
         phases = []
-        ran_any = deferred_any = kept_any = False
+        ran_any = deferred_any = kept_any = failed_any = repaired_any = False
+        was_failed = set()
         for k, res in enumerate(results):
             ran = {c["label"] for c in res.commands if c["label"] in labels}
             skipped = {e[1] for e in res.events if e[0] == "SKIP" and e[1] in labels}
             nodes = res.nodes()
             states = {l: (nodes.get("step:" + l, {"props": {}})["props"].get("state") or ["?"])[0] for l in labels}
             ran_any |= bool(ran) and k > 0
-            deferred_any |= any(states[l] != "SUCCEEDED" for l in ran)
+            deferred_any |= any(states[l] == "PENDING" for l in ran)
+            failed_now = {l for l in labels if states[l] == "FAILED"}
+            failed_any |= bool(failed_now)
+            repaired_any |= any(states[l] == "SUCCEEDED" for l in was_failed)
+            was_failed = failed_now
             kept_any |= k > 0 and len(ran) < len(labels)
             log = [f"({labels[l]}, true)" for l in sorted(ran)] + [f"({labels[l]}, false)" for l in sorted(skipped - ran)]
             est = [f"({labels[l]}, {common.coq_bool(states[l] == 'SUCCEEDED')})" for l in sorted(labels)]
+            efl = [f"({labels[l]}, {common.coq_bool(states[l] == 'FAILED')})" for l in sorted(labels)]
             src, env = worlds[k]
             prev = results[k - 1].files if k > 0 else {}
             outs = sorted(p for s in steps for p in s["out"])
             chg = [f"({pid[p]}, {common.coq_bool(res.files.get(p) != prev.get(p))})" for p in outs]
-            phases.append(f"({common.coq_list([f'({a}, {b})' for a, b in src])}, [], "
-                          f"{common.coq_list(log)}, {common.coq_list(est)}, {common.coq_list(chg)})")
+            phases.append(f"(({common.coq_list([f'({a}, {b})' for a, b in src])}, [], "
+                          f"{common.coq_list(log)}, {common.coq_list(est)}, {common.coq_list(chg)}), "
+                          f"{common.coq_list(efl)})")
             ctx.count("amend_builds")
-            ctx.count("amend_deferred_runs", sum(1 for l in ran if states[l] != "SUCCEEDED"))
+            ctx.count("amend_deferred_runs", sum(1 for l in ran if states[l] == "PENDING"))
+            ctx.count("amend_failed_runs", sum(1 for l in ran if states[l] == "FAILED"))
         proj = common.coq_list([
             f"mkStep {s['id']} {common.coq_list([str(pid[p]) for p in s['inp']])} [] "
             f"{common.coq_list([str(pid[p]) for p in s['out']])}" for s in steps])
         tabt = common.coq_list([f"({a}, {b}, {common.coq_list([str(x) for x in c])})" for a, b, c in tab])
-        term = f"let proj := {proj} in check_hist_a {tabt} proj empty_asys {common.coq_list(phases)}"
+        ftabt = common.coq_list([f"({a}, {b})" for a, b in ftab])
+        term = f"let proj := {proj} in check_hist_a {tabt} {ftabt} proj empty_asys {common.coq_list(phases)}"
         checks.append(term)
         meta.append((project, history, term))
         ctx.case(("engine-amend", i, term), nontrivial=ran_any and kept_any)
         if deferred_any:
             ctx.count("amend_histories_with_deferral")
+        if failed_any:
+            ctx.count("amend_histories_with_failure")
+        if repaired_any:
+            ctx.count("amend_histories_with_repaired_failure")
     bad = common.run_cases(ctx, "amend", HEADER, checks, chunk=10)
     ctx.traces_validated += len(checks) - len(bad)
     for b in bad[:3]:
@@ -351,6 +385,7 @@ def correspondence_amend(ctx):
         got = common.eval_terms(ctx, "amenddiag", HEADER, [t2])
         ctx.add_failure("correspondence", "E3:Engine:amend", "E3:Engine:amended-inputs-executed-or-skipped-set",
                         "model/Engine.v (Section Amend, gating as in the code) and the real system disagree on "
-                        "which steps ran (or ran and deferred), were skipped, ended SUCCEEDED or which outputs "
-                        f"changed; model did (log, states, changes) per build: {(got[0] or '')[:1500]}",
+                        "which steps ran (or ran and deferred / failed), were skipped, ended SUCCEEDED, ended "
+                        f"FAILED or which outputs changed; model did (log, succeeded, failed, changes) per "
+                        f"build: {(got[0] or '')[:1500]}",
                         witness={"case": co.case_json(project, history), "model_term": term})
